@@ -63,17 +63,32 @@ def task(arg):
     samples = []
     for si, sd in enumerate(seeds_for(p, tier, seed)):
         # one seed per precision is built in shared memory (same estimates are required)
-        sk = SK.make("hll", p, sd, shared_memory=(si == 1))
+        # seed #2 is constructed with numpy-typed arguments (p as the narrowest type that holds
+        # it), seed #3 is fed through one-shot iterators
+        import numpy as _np
+
+        if si == 2:
+            sk = SK.make("hll", _np.uint8(p), _np.uint64(sd))
+        else:
+            sk = SK.make("hll", p, sd, shared_memory=(si == 1))
         fam = si % 2
         off = (seed * 1000003 + si * 7919) % 2**40
         done = 0
         for n in grid:
             while done < n:
                 step = min(n - done, 200000)
-                sk.update(keys(fam, off, done, done + step))
+                batch = keys(fam, off, done, done + step)
+                if si == 3:
+                    try:
+                        sk.update(iter(batch))  # may be refused, but must not be dropped
+                    except TypeError:
+                        sk.update(batch)
+                else:
+                    sk.update(batch)
                 done += step
             cells += 1
-            case = {"p": p, "seed": sd, "n": n, "family": fam, "offset": off, "shared": si == 1}
+            case = {"p": p, "seed": sd, "n": n, "family": fam, "offset": off, "shared": si == 1,
+                    "variant": si}
             try:
                 est = float(sk.query())
             except Exception as e:
@@ -144,13 +159,26 @@ def replay(case):
     p, sd, n = case["p"], case["seed"], case["n"]
     thr = float(hc.sub_algorithm_threshold[p - 7])
     m = 1 << p
-    sk = SK.make("hll", p, sd, shared_memory=bool(case.get("shared")))
+    import numpy as _np
+
+    var = case.get("variant", 0)
+    if var == 2:
+        sk = SK.make("hll", _np.uint8(p), _np.uint64(sd))
+    else:
+        sk = SK.make("hll", p, sd, shared_memory=bool(case.get("shared")))
     done = 0
     est = None
     for g in [x for x in n_grid(p, thr) if x <= n]:
         while done < g:
             step = min(g - done, 200000)
-            sk.update(keys(case["family"], case["offset"], done, done + step))
+            batch = keys(case["family"], case["offset"], done, done + step)
+            if var == 3:
+                try:
+                    sk.update(iter(batch))
+                except TypeError:
+                    sk.update(batch)
+            else:
+                sk.update(batch)
             done += step
         try:
             est = float(sk.query())
